@@ -218,4 +218,6 @@ def _r20_5(ctx):
 
 
 # sensitivity pack (thorough tier): each seeded edit must be reported by the named rule instance
-MUTANTS = [{'name': 'amount-minus-one-again', 'file': 'src/wallet/transaction_builder.rs', 'old': 'amount.saturating_sub(1)', 'new': 'amount - 1', 'expect': ('R20.5', 'select_outgoing', 'arith:Sub(')}]
+MUTANTS = [{'name': 'seeded-C20-a', 'patch': 'C20-a/patch.diff', 'expect': ('R20.4', 'select_outgoing', '')},
+           {'name': 'seeded-C20-b', 'patch': 'C20-b/patch.diff', 'expect': ('R20.2', 'select_cardinal_utxo', '')},
+           {'name': 'amount-minus-one-again', 'file': 'src/wallet/transaction_builder.rs', 'old': 'amount.saturating_sub(1)', 'new': 'amount - 1', 'expect': ('R20.5', 'select_outgoing', 'arith:Sub(')}]
